@@ -1,12 +1,14 @@
-(* Obligation C20/poisson_cdf_range_monotone.  Statement as printed by Coq from Inferno.C20.DistProofs; proof by reference.
+(* Obligation C20/poisson_cdf_range_monotone.  Statement as printed by Coq from Inferno.C20.DistPoisson; proof by reference.
    This file contains nothing else, so the statement cannot be weakened quietly. *)
 From Coq Require Import Reals List ZArith Bool.
 From Coquelicot Require Import Coquelicot.
 From Flocq Require Import Core.Raux.
-From Inferno Require Import Base.Num Base.NumR C20.Model C20.Spec C20.DistProofs.
+From Inferno Require Import Base.Num Base.NumR Gen.Distributions C20.Model C20.Spec C20.DistPoisson.
 Import ListNotations.
 Open Scope R_scope.
-Theorem poisson_cdf_range_monotone : forall rate s1 s2 : R,
-  0 < rate -> 0 <= s1 <= s2 -> 0 < poisson_cdf RN s1 rate <= poisson_cdf RN s2 rate.
-Proof. exact (@Inferno.C20.DistProofs.poisson_cdf_range_monotone). Qed.
+Theorem poisson_cdf_range_monotone : forall (lg : R -> R) (g : R -> R -> R) (rate s1 s2 : R),
+  lgamma_spec lg ->
+  gammaincc_spec g ->
+  0 < rate -> 0 <= s1 <= s2 -> 0 < poisson_cdf RN g s1 rate <= poisson_cdf RN g s2 rate.
+Proof. exact (@Inferno.C20.DistPoisson.poisson_cdf_range_monotone). Qed.
 Print Assumptions poisson_cdf_range_monotone.
